@@ -370,6 +370,11 @@ func vpAllConditions(w *vpWorld) []string {
 	for _, o := range grs.Items {
 		parents("GRPCRoute/"+o.Namespace+"/"+o.Name, o.Status.Parents)
 	}
+	var trs v1alpha2.TLSRouteList
+	_ = w.k8s.List(ctx, &trs)
+	for _, o := range trs.Items {
+		parents("TLSRoute/"+o.Namespace+"/"+o.Name, o.Status.Parents)
+	}
 	anc := func(obj string, as []v1alpha2.PolicyAncestorStatus) {
 		for _, a := range as {
 			add(obj, "ancestor "+string(a.AncestorRef.Name), a.Conditions)
